@@ -96,6 +96,8 @@ pub struct CronSchedule {
     last_schedule: Option<DateTime>,
     #[cfg(test)]
     now: Option<DateTime>,
+    #[cfg(feature = "verif-hooks")]
+    verif_now: Option<DateTime>,
 }
 
 impl CronSchedule {
@@ -151,7 +153,15 @@ impl CronSchedule {
             months: fields.3,
             days_of_week: fields.4,
             last_schedule: None,
+            #[cfg(feature = "verif-hooks")]
+            verif_now: None,
         })
+    }
+
+    /// Verification hook: pins the clock that `next()` reads.
+    #[cfg(feature = "verif-hooks")]
+    pub fn verif_set_now(&mut self, now: DateTime) {
+        self.verif_now = Some(now);
     }
 
     /// Mock function of [`CronSchedule::parse`] for testing.
@@ -168,6 +178,8 @@ impl CronSchedule {
             days_of_week: fields.4,
             last_schedule: None,
             now,
+            #[cfg(feature = "verif-hooks")]
+            verif_now: None,
         })
     }
 }
@@ -219,6 +231,8 @@ impl Iterator for CronSchedule {
         let now = DateTime::now().clear_until_second();
         #[cfg(test)]
         let now = self.now.unwrap_or(DateTime::now()).clear_until_second();
+        #[cfg(feature = "verif-hooks")]
+        let now = self.verif_now.unwrap_or(now).clear_until_second();
 
         let last = match self.last_schedule {
             Some(last) if last >= now => last,
